@@ -6,19 +6,9 @@ Import ListNotations.
 Open Scope string_scope.
 
 (* kind -> coercion function and kind -> equality function: the model's scalar classes *)
-Definition kind_go (k : kind) : string :=
-  match k with
-  | KBool => "reflect.Bool" | KInt => "reflect.Int" | KInt8 => "reflect.Int8" | KInt16 => "reflect.Int16" | KInt32 => "reflect.Int32" | KInt64 => "reflect.Int64"
-  | KUint => "reflect.Uint" | KUint8 => "reflect.Uint8" | KUint16 => "reflect.Uint16" | KUint32 => "reflect.Uint32" | KUint64 => "reflect.Uint64"
-  | KFloat32 => "reflect.Float32" | KFloat64 => "reflect.Float64" | KString => "reflect.String"
-  | KUintptr => "reflect.Uintptr" | KComplex => "reflect.Complex128" | KArray => "reflect.Array" | KChan => "reflect.Chan" | KFunc => "reflect.Func"
-  | KInterface => "reflect.Interface" | KMap => "reflect.Map" | KPtr => "reflect.Ptr" | KSlice => "reflect.Slice" | KStruct => "reflect.Struct"
-  | KUnsafe => "reflect.UnsafePointer" | KInvalid => "reflect.Invalid" end.
-Definition all_kinds := [KInvalid; KBool; KInt; KInt8; KInt16; KInt32; KInt64; KUint; KUint8; KUint16; KUint32; KUint64; KUintptr; KFloat32; KFloat64;
-  KComplex; KArray; KChan; KFunc; KInterface; KMap; KPtr; KSlice; KString; KStruct; KUnsafe].
 Definition coerce_fn_of_class (c : sclass) : string :=
   match c with SBool => "CoerceBool" | SInt => "CoerceInt64" | SUint => "CoerceUint64" | SF32 => "CoerceFloat32" | SF64 => "CoerceFloat64"
-             | SString | SNone => "expression.Value.Raw" end.
+             | SString | SNone => "<the literal as written>" end.
 Definition eq_fn_of_class (c : sclass) : string :=
   match c with SBool => "doEqualBool" | SInt => "doEqualInt64" | SUint => "doEqualUint64" | SF32 => "doEqualFloat32" | SF64 => "doEqualFloat64"
              | SString => "doEqualString" | SNone => "nil" end.
